@@ -380,6 +380,25 @@ where
             d.configs += 1;
         }
     }
+    // an omission is an omission however many keys the map has: one field left out and another one written twice (or
+    // three times), in every position
+    for omit in 0..3 {
+        let kept: Vec<usize> = (0..3).filter(|i| *i != omit).collect();
+        for (dup, order) in [(kept[0], [0usize, 1, 2]), (kept[1], [0, 1, 2]), (kept[0], [2, 0, 1]), (kept[1], [1, 2, 0])] {
+            let mut parts = vec![field(names[kept[0]]), field(names[kept[1]]), field(names[dup])];
+            if d.chance(1, 4) {
+                parts.push(field(names[dup]));
+            }
+            let text = format!("{{{}}}", (0..parts.len()).map(|i| parts[if i < 3 { order[i] } else { i }].clone()).collect::<Vec<_>>().join(","));
+            let r = catches(|| serde_json::from_str::<T>(&text));
+            match r {
+                Err(m) => return Outcome::Fail { sig: "omission-panics", msg: format!("{}: missing `{}` with a repeated key panics: {}", T::NAME, names[omit], m) },
+                Ok(Ok(b)) => return Outcome::Fail { sig: "omission-with-duplicate-accepted", msg: format!("{}: {} (no `{}`) accepted as {:?}", T::NAME, text, names[omit], b) },
+                Ok(Err(_)) => {}
+            }
+            d.configs += 1;
+        }
+    }
     // an unknown field at each position
     let unk = d.pick(&["\"extra\":1", "\"displacement\":{\"x\":0,\"y\":0,\"z\":0}", "\"Scale\":1.0", "\"\":null", "\"rotation\":0"]);
     for at in 0..4 {
